@@ -98,6 +98,10 @@ func vKnown(name string) bool {
 }
 func vMapOrder(on bool) {}
 
+// vMapReverse: under the engine every map range runs in reverse insertion order while on (one
+// fixed alternative order instead of forking over all of them); natively a no-op.
+func vMapReverse(on bool) {}
+
 // vSymbolic reports whether the harness runs under the symbolic engine.
 func vSymbolic() bool { return false }
 
